@@ -871,7 +871,9 @@ def gen_scalers(count):
 # ---------------------------------------------------------------------------------------------------------------
 # stream: e2e_exploit  (deterministic end-to-end: every configuration told, kappa = 0, interpolating surrogate)
 # ---------------------------------------------------------------------------------------------------------------
-FOREST_KW = dict(n_estimators=4, min_samples_split=2, bootstrap=False, max_samples=None, max_features=1.0)
+# splitter="best": fully grown trees on distinct inputs reproduce their training targets; the "random" splitter of "ET" does not
+# always do so (a node may stay unsplit), so the interpolation hypothesis of the theorem is only met with "best"
+FOREST_KW = dict(n_estimators=4, min_samples_split=2, bootstrap=False, max_samples=None, max_features=1.0, splitter="best")
 
 
 def check_e2e(case):
@@ -1005,6 +1007,9 @@ def shrink_e2e(case):
 # ---------------------------------------------------------------------------------------------------------------
 # stream: e2e_stat  (THOROUGH; a statistical test, not a theorem: later proposals concentrate at the maximiser)
 # ---------------------------------------------------------------------------------------------------------------
+STAT_MIN_MEAN = 0.55
+
+
 def check_e2e_stat(case):
     from deephyper.hpo import CBO, HpProblem
 
@@ -1029,33 +1034,46 @@ def check_e2e_stat(case):
                    utopia="n/a" if n_obj == 1 else ("zero" if case["scaler"] in ("minmax", "quantile-uniform") or
                                                     (case["scaler"] == "auto" and case["surrogate"] in ("ET", "RF")) else "nonzero"),
                    surrogate=case["surrogate"], n_obj=n_obj)
-    with tempfile.TemporaryDirectory(prefix="vp_c05_") as d:
-        s = CBO(pb, run, log_dir=d, random_state=case["seed"], surrogate_model=case["surrogate"], surrogate_model_kwargs=kw, n_points=1000,
-                n_initial_points=n_init, objective_scaler=case["scaler"], moo_scalarization_strategy=case["kind"],
-                moo_scalarization_weight=case["w"], verbose=0)
-        df = s.search(max_evals=case["max_evals"])
-    df = df.sort_values("job_id")
-    later = df[df["job_id"] >= n_init]
-    t = later["p:x"].to_numpy() if dim == 1 else 0.5 * (later["p:x"].to_numpy() + later["p:y"].to_numpy())
-    top, bottom = int((t >= 0.8).sum()), int((t <= 0.2).sum())
-    # far-tail threshold: at least a third of the later proposals in the top fifth and more than twice the bottom fifth
-    need = max(len(t) // 3, 2 * bottom + 1)
-    if not m.call(O_PICKMAX, qpack([F(need), F(top)], 1)):
-        return fail(res, "oracle", "proposals_do_not_concentrate_at_the_maximiser", dict(top=top, bottom=bottom, later=len(t), mean_t=float(t.mean())))
-    return res
+    means, bottoms, laters = [], [], []
+    for seed in case["seeds"]:
+        with tempfile.TemporaryDirectory(prefix="vp_c05_") as d:
+            # GP has no disentangled std (the default UCBd raises TypeError with GP: F04, a C02 finding) -> plain UCB for GP
+            s = CBO(pb, run, log_dir=d, random_state=seed, surrogate_model=case["surrogate"], surrogate_model_kwargs=kw, n_points=1000,
+                    acq_func="UCB" if case["surrogate"] == "GP" else "UCBd",
+                    n_initial_points=n_init, objective_scaler=case["scaler"], moo_scalarization_strategy=case["kind"],
+                    moo_scalarization_weight=case["w"], verbose=0)
+            df = s.search(max_evals=case["max_evals"])
+        df = df.sort_values("job_id")
+        later = df[df["job_id"] >= n_init]
+        t = later["p:x"].to_numpy() if dim == 1 else 0.5 * (later["p:x"].to_numpy() + later["p:y"].to_numpy())
+        means.append(float(t.mean()))
+        bottoms.append(int((t <= 0.2).sum()))
+        laters.append(len(t))
+    # far-tail thresholds on the MEDIAN over the seeds: a maximiser has a mean position ~0.85 and (almost) no proposal in the bottom
+    # fifth; a random search 0.5; a minimiser ~0.15 with most proposals in the bottom fifth
+    med_mean, med_bottom = sorted(means)[len(means) // 2], sorted(bottoms)[len(bottoms) // 2]
+    det = dict(mean_position=means, bottom_fifth=bottoms, later=laters)
+    if not m.call(O_PICKMAX, qpack([F(STAT_MIN_MEAN), F(med_mean)], 1)) or not m.call(O_PICKMAX, qpack([F(4 * med_bottom), F(min(laters))], 1)):
+        return fail(res, "oracle", "proposals_do_not_concentrate_at_the_maximiser", det)
+    return dict(res, stat=det)
 
 
 def gen_e2e_stat(count):
     def gen(rng, tier):
         if tier == "quick":
             return
-        kinds, scalers = list(SKIND), ["auto", "identity", "minmax", "quantile-uniform"]
-        for i in range(count if tier != "search" else 8):
-            n_obj = [1, 2, 2, 3][i % 4]
-            sur = ["ET", "RF", "GP"][(i // 4) % 3]
-            yield dict(surrogate=sur, n_obj=n_obj, kind=kinds[(i // 2) % 5], scaler=scalers[(i // 3) % 4], dim=[1, 2][(i // 5) % 2],
-                       offset=[0.0, 100.0, -100.0, -0.5][(i // 7) % 4], scale=[1.0, 10.0, 0.125][(i // 11) % 3], w=None if i % 3 else [1.0 / n_obj] * n_obj,
-                       seed=rng.randint(0, 10 ** 6), max_evals=32 if sur != "GP" else 24)
+        kinds, scalers, surs = list(SKIND), ["auto", "identity", "minmax", "quantile-uniform"], ["ET", "RF", "GP"]
+        combos = [(s, sc, k, 2) for s in surs for sc in scalers for k in kinds]            # 60: every surrogate x scaler x scalarisation
+        combos += [(s, sc, "Linear", 1) for s in surs for sc in scalers]                   # 12: single objective
+        combos += [(rng.choice(surs), rng.choice(scalers), k, 3) for k in kinds for _ in range(5)]   # 25: three objectives
+        if tier == "search":
+            combos = rng.sample(combos, 8)
+        for i, (sur, scaler, kind, n_obj) in enumerate(combos[:count]):
+            # Quadratic converges slowly on the 2-D problem (mean position 0.55-0.75 after 28 proposals): 1-D only, to keep the threshold far
+            dim = 1 if kind == "Quadratic" and n_obj > 1 else rng.choice([1, 2])
+            yield dict(surrogate=sur, n_obj=n_obj, kind=kind, scaler=scaler, dim=dim, offset=rng.choice([0.0, 100.0, -100.0, -0.5]),
+                       scale=rng.choice([1.0, 10.0, 0.125]), w=None if i % 3 else [1.0 / n_obj] * n_obj,
+                       seeds=[rng.randint(0, 10 ** 6) for _ in range(3)], max_evals=36 if sur != "GP" else 28)
     return gen
 
 
@@ -1073,5 +1091,5 @@ def streams(tier):
         Stream("e2e_exploit", gen_e2e(3600 if th else 720), check_e2e, shrink_e2e, timeout=120),
     ]
     if th:
-        ss.append(Stream("e2e_stat", gen_e2e_stat(96), check_e2e_stat, None, timeout=600))
+        ss.append(Stream("e2e_stat", gen_e2e_stat(97), check_e2e_stat, None, timeout=600))
     return ss
